@@ -1,4 +1,4 @@
 #!/bin/bash
-# runs the repository's baseline suite on a tree (default /repo); prints the pass/fail summary line
+# runs the repository's baseline suite on a tree (default /repo); prints the summary line
 d=${1:-/repo}
-cd "$d" && PYTHONPATH="$d" /venv/bin/python -m pytest -q -p no:cacheprovider --timeout=900 --continue-on-collection-errors -q 2>&1 | tail -1
+cd "$d" && PYTHONPATH="$d" /venv/bin/python -m pytest -q -p no:cacheprovider --timeout=900 --continue-on-collection-errors 2>&1 | tail -1
